@@ -334,7 +334,8 @@ func (pc *c13Case) class(outcome string) string {
 	st := pc.St
 	text := c13Sig(st.Tags, "quote", "newline", "unicode", "sep")
 	feat := c13Sig(st.Tags, "zero-amount", "credit", "fee", "fx", "conversion", "forex-pair", "trade", "dividend", "rounding-line", "fx-comment", "multi-currency",
-		"sub-cent-amounts", "balances", "pending-row", "cancelled-row", "from", "half-cent", "odd-currency", "exotic-number", "thousands-sep", "stock-trade", "forex-trade")
+		"sub-cent-amounts", "balances", "pending-row", "cancelled-row", "from", "half-cent", "odd-currency", "exotic-number", "thousands-sep", "stock-trade", "forex-trade",
+		"flags-equal", "flags-3-equal", "flag-is-tbd")
 	return fmt.Sprintf("%s/%s/%s/n%s/%s/%s", pc.Stream, st.Imp, outcome, bucket(st.Rows), text, feat)
 }
 
@@ -353,7 +354,7 @@ func c13Evaluate(c *Ctx, bt *Batch, pc *c13Case) {
 	if pc.Idx < 1 && pc.Stream == "stmt" {
 		c.Sample(map[string]any{"importer": st.Imp, "args": strings.Join(st.Args, " "), "statement": clip(string(st.File)), "output": clip(pc.Out)})
 	}
-	wellFormed := pc.Stream == "stmt"
+	wellFormed := pc.Stream == "stmt" || pc.Stream == "flags"
 
 	// ---- correspondence: real importer vs Lean row model + journal printer, byte for byte
 	recs, syntaxErr := c13Decode(st.Imp, st.File)
@@ -412,7 +413,7 @@ func c13Evaluate(c *Ctx, bt *Batch, pc *c13Case) {
 	}, "c13-wf", pc.Read.Wire)
 
 	// ---- monitor: once the accounts are opened the output is accepted and re-printed unchanged
-	if pc.PrintInput != "" && (st.Checked || pc.Stream != "stmt") {
+	if pc.PrintInput != "" && (st.Checked || !wellFormed) {
 		if wellFormed {
 			if c13Monitor(c, pc, pc.Stream, pc.Idx, "output_accepted", in, pc.PrintCode == 0, fmt.Sprintf("`knut print` rejects opens + output (exit %d):\n%s\n---\n%s", pc.PrintCode, pc.PrintErr, pc.PrintInput)) {
 				pc.fixpoint(c, in, recs)
@@ -615,6 +616,24 @@ func runC13(c *Ctx) {
 			st := c13Gen(r, imp)
 			mut := c13Mutate(r, st)
 			cases = append(cases, &c13Case{Stream: "malformed", Idx: idx, St: st, Mut: mut})
+		}
+	}
+	// stream flags: the importers with several account flags, on every way in which these flags can name the same account
+	// or Expenses:TBD (the set partitions of {TBD, flag 1, …, flag k}, taken in turn by the index: 2 for revolut2, 5 for
+	// com.wise, 203 for the two brokers). The flags differ from the import account, as the theorems assume; the statement and
+	// the generator's reading of it are those of the stmt stream, so all its monitors apply.
+	for k, imp := range c13Importers {
+		per := map[string]int{"revolut2": c.N(60, 600), "com.wise": c.N(100, 1000), "ch.swissquote": c.N(406, 4060), "us.interactivebrokers": c.N(406, 4060)}[imp]
+		for i := 0; i < per; i++ {
+			idx := k*1000000 + i
+			if !c.Want("flags", idx) {
+				continue
+			}
+			r := c.Rng("flags", idx)
+			st := c13GenBase(r, imp)
+			ps := c13Partitions(len(c13FlagSlots(st)))
+			c13ApplyPartition(st, ps[i%len(ps)])
+			cases = append(cases, &c13Case{Stream: "flags", Idx: idx, St: st})
 		}
 	}
 	// the repository's own example statements, as a fixed corpus
